@@ -25,6 +25,9 @@ type pipelineIn struct {
 	Rounds int    `json:"rounds"`
 	Fresh  bool   `json:"fresh"`
 	Full   bool   `json:"full"` // include full metadata JSON, not only hashes
+	// Scripts[i] is the call history of round i on the shared pipeline: a string over G (GenerateGraph),
+	// V (Validate), I (GenerateIntermediate); "" or missing = "GVI".  The fresh pipeline always runs "GVI".
+	Scripts []string `json:"scripts"`
 }
 
 type diagOut struct {
@@ -51,6 +54,7 @@ type roundOut struct {
 	GraphNodes int             `json:"graph_nodes"`
 	GraphLines int             `json:"graph_lines"`
 	MetaHash   string          `json:"meta_hash"`
+	MetaHashes []string        `json:"meta_hashes"` // one per GenerateIntermediate call of the round, in order
 	Meta       json.RawMessage `json:"meta,omitempty"`
 	Panic      string          `json:"panic"`
 }
@@ -95,48 +99,61 @@ func canonicalGraph(s string) (string, int, int) {
 var dumpSeq int
 var posRegex = regexp.MustCompile(`@\d+`)
 
-func oneRound(p *pipeline.GleecePipeline, full bool) (r roundOut) {
+func oneRound(p *pipeline.GleecePipeline, full bool, script string) (r roundOut) {
 	defer func() {
 		if e := recover(); e != nil {
 			r.Panic = fmt.Sprint(e)
 		}
 	}()
 	r.Diags = []diagOut{}
-	if err := p.GenerateGraph(); err != nil {
-		r.GraphErr = err.Error()
-		return
+	r.MetaHashes = []string{}
+	if script == "" {
+		script = "GVI"
 	}
-	diags, err := p.Validate()
-	if err != nil {
-		r.ValErr = err.Error()
-	}
-	flattenDiags("", diags, &r.Diags)
-	errEnts := diagnostics.GetDiagnosticsWithSeverity(diags, []diagnostics.DiagnosticSeverity{diagnostics.DiagnosticError})
-	if len(errEnts) > 0 {
-		r.ErrorText = diagnostics.DiagnosticsToError(errEnts).Error()
-	}
-	inter, err := p.GenerateIntermediate()
-	if err != nil {
-		r.InterErr = err.Error()
-	} else {
-		// imports: map[string][]string with unordered slices
-		for k := range inter.Imports {
-			sort.Strings(inter.Imports[k])
-		}
-		// Models.Aliases is assembled from a map walk and never sorted by gleece; its order is not part
-		// of any artifact (components are rendered key-sorted), so it is canonicalised here
-		sort.SliceStable(inter.Models.Aliases, func(i, j int) bool {
-			a, b := inter.Models.Aliases[i], inter.Models.Aliases[j]
-			if a.Name != b.Name {
-				return a.Name < b.Name
+	for _, op := range script {
+		switch op {
+		case 'G':
+			if err := p.GenerateGraph(); err != nil {
+				r.GraphErr = err.Error()
+				return
 			}
-			return a.PkgPath < b.PkgPath
-		})
-		b, _ := json.Marshal(inter)
-		h := sha256.Sum256(b)
-		r.MetaHash = hex.EncodeToString(h[:8])
-		if full {
-			r.Meta = b
+		case 'V':
+			diags, err := p.Validate()
+			if err != nil {
+				r.ValErr = err.Error()
+			}
+			r.Diags = []diagOut{}
+			flattenDiags("", diags, &r.Diags)
+			errEnts := diagnostics.GetDiagnosticsWithSeverity(diags, []diagnostics.DiagnosticSeverity{diagnostics.DiagnosticError})
+			if len(errEnts) > 0 {
+				r.ErrorText = diagnostics.DiagnosticsToError(errEnts).Error()
+			}
+		case 'I':
+			inter, err := p.GenerateIntermediate()
+			if err != nil {
+				r.InterErr = err.Error()
+				continue
+			}
+			// imports: map[string][]string with unordered slices
+			for k := range inter.Imports {
+				sort.Strings(inter.Imports[k])
+			}
+			// Models.Aliases is assembled from a map walk and never sorted by gleece; its order is not part
+			// of any artifact (components are rendered key-sorted), so it is canonicalised here
+			sort.SliceStable(inter.Models.Aliases, func(i, j int) bool {
+				a, b := inter.Models.Aliases[i], inter.Models.Aliases[j]
+				if a.Name != b.Name {
+					return a.Name < b.Name
+				}
+				return a.PkgPath < b.PkgPath
+			})
+			b, _ := json.Marshal(inter)
+			h := sha256.Sum256(b)
+			r.MetaHash = hex.EncodeToString(h[:8])
+			r.MetaHashes = append(r.MetaHashes, r.MetaHash)
+			if full {
+				r.Meta = b
+			}
 		}
 	}
 	dump := p.Graph().String()
@@ -170,7 +187,11 @@ func init() {
 		}
 		rounds := []roundOut{}
 		for i := 0; i < req.Rounds; i++ {
-			rounds = append(rounds, oneRound(&pipe, req.Full))
+			script := ""
+			if i < len(req.Scripts) {
+				script = req.Scripts[i]
+			}
+			rounds = append(rounds, oneRound(&pipe, req.Full, script))
 		}
 		res["rounds"] = rounds
 		if req.Fresh {
@@ -178,7 +199,7 @@ func init() {
 			if err != nil {
 				res["fresh_err"] = err.Error()
 			} else {
-				res["fresh"] = oneRound(&fresh, req.Full)
+				res["fresh"] = oneRound(&fresh, req.Full, "")
 			}
 		}
 		return writeJSON(out, res)
